@@ -18,6 +18,9 @@ factor, sign convention and coefficient placement agrees with the continuous ope
      limit.  Flux consistency at the boundary is necessary for convergence of a conservative scheme (an O(1) error in a
      boundary flux is an O(1) error in the global balance); the first-order term is deliberately not compared (donor-cell
      upwinding with the boundary value on the face differs there, legitimately).
+ K4  order clause for the centred operators (diffusion, central advection, divergence): on uniform spacing the
+     eps^1 coefficient of the truncation series vanishes, i.e. the generic-cell truncation error is O(h^2) - the "order of
+     the scheme" named in the property, as a statement about the local truncation error (not about the solution error)
  K2  boundary rows are the Robin relation with the metric factor (C03.B2) and the backward-Euler row is exact (C12.T1):
      exact identities proved there; referenced, not repeated.
 """
@@ -35,11 +38,13 @@ from .. import facts as F
 PROP = 'C02'
 RULES = {'K1': 'limit of the discrete operator on smooth fields == documented continuous operator (generic cell, graded spacing)',
          'K2': 'boundary relation and time discretisation exact (C03.B2, C12.T1)',
-         'K3': 'boundary-face flux functional has the leading order of the interior-face functional'}
+         'K3': 'boundary-face flux functional has the leading order of the interior-face functional',
+         'K4': 'centred operators are second-order accurate on uniform spacing (eps^1 coefficient vanishes)'}
 ASSUMPTIONS = ['smoothly graded spacing f[t+k] = X + eps*k*a + eps^2*k^2*b/2; smooth fields; a > 0; non-vanishing velocity components for the upwind limit',
                'the order of convergence, stability and the refinement behaviour itself are NOT decided',
                'TVD correction: consistency follows from C05.E4/E5 with psi(1)=1 (C13.F4); not expanded here because the limiter is opaque']
 SPH3 = 'SphericalGrid3D'
+ORDER2 = True         # the order clause K4 (needs one more Taylor order and the cell-centred expansion point)
 
 
 def metric(cls):
@@ -78,7 +83,8 @@ class Expander:
     bnd[0] (0 or N); there the face beyond the boundary is the mirror image of the first interior one (the ghost cell has
     the size of the adjacent cell, C10.G1).  Indices that are a constant offset from *another* reference of the axis (the
     opposite end, the generic position) get an expansion of their own with independent symbols."""
-    def __init__(self, w, order=3, anchor=None, bnd=None):
+    def __init__(self, w, order=3, anchor=None, bnd=None, shift=0):
+        self.shift = Fraction(shift)       # 1/2: the expansion point is the centre of the generic cell (order clause K4)
         self.order = order
         self.w = w
         self.d = w.dim
@@ -113,6 +119,7 @@ class Expander:
             inner = Series.poly([ZERO, self.a[k] * (-o), self.b[k] / 2])
             co = Series.poly([self.X[k] if not rel else ZERO]) - inner          # 2 f[0] - f[-+1]
             return co
+        o = o + self.shift
         co = [self.X[k] if not rel else ZERO, self.a[k] * o, self.b[k] * o * o / 2]
         return Series.poly(co)
 
@@ -219,6 +226,8 @@ def jobs(tier):
 
 def job(args):
     cls, tier = args
+    global ORDER2
+    ORDER2 = True
     sm = SourceModel()
     w = World(sm, cls)
     d = w.dim
@@ -236,9 +245,9 @@ def job(args):
         construct = f"{module}.{impl}"
         res = w.call(module, disp, w.face_variable(cname))
         last = None
-        for order in (3, 4, 5):
+        for order in ((4, 5, 6) if ORDER2 else (3, 4, 5)):
             try:
-                _analyse_term(w, Expander(w, order), res, P, cls, d, tname, construct, fi, ob, samples)
+                _analyse_term(w, Expander(w, order, shift=Fraction(1, 2) if ORDER2 else 0), res, P, cls, d, tname, construct, fi, ob, samples)
                 last = None
                 break
             except AnalysisError as e:
@@ -286,6 +295,15 @@ def finalize(sm, rep, tier, results):
     f = lambda k: Series.poly([X, a * k, ZERO])
     good = (f(1) * f(1)) / (((f(1) + f(0)).scale(Rat.const(Fraction(1, 2)))) ** 2)
     bad = f(1) / (((f(1) + f(0)).scale(Rat.const(Fraction(1, 2)))) ** 2)
+    p1, p2, p3 = (Rat.atom(('ctl', 'phi', k)) for k in (1, 2, 3))
+    def ph(sgn):
+        return Series.poly([ZERO, p1 * sgn, p2 / 2, p3 * sgn / 6])
+    eps_ = Series.poly([ZERO, ONE])
+    fwd = ph(1) / eps_
+    ctr = (ph(1) - ph(-1)) / (eps_ + eps_)
+    rep.control('K4 separates a one-sided difference (first order) from a centred one (second order)', not is_zero(fwd.coeff(1)) and is_zero(ctr.coeff(1)) and is_zero(ctr.coeff(0) - p1))
+    if True:
+        rep.floor('centred operators with the order clause K4', sum(1 for o in rep.obs if o['rule'] == 'K4'), 27)
     rep.control('K1 distinguishes r_f^2/r_p^2 from r_f/r_p^2 in the limit', is_zero(good.coeff(0) - 1) and not is_zero(bad.coeff(0) - 1))
 
 
@@ -379,6 +397,16 @@ def _analyse_term(w, ex, res, P, cls, d, tname, construct, fi, ob, samples):
         else:
             det = f"limit == {fmt_rat(exp, 6)} (Taylor order {ex.order})"
         ob('K1', construct, ok, det, fi.loc())
+        if ok and ORDER2 and tname in ('diffusion', 'convection', 'divergence'):
+            # K4: on uniform spacing (b = 0) the centred operators are second-order accurate: the eps^1
+            # coefficient of the truncation series vanishes
+            if tot.top <= 1:
+                raise AnalysisError("series precision insufficient for the order clause")
+            gb = {atom_id(('gb', AX[k])): ZERO for k in range(d)}
+            c1 = tot.coeff(1).subs(gb)
+            ok4 = zero_excluding_ties(c1, 'jet')
+            ob('K4', construct, ok4, "uniform spacing: first-order term of the truncation series vanishes (second-order accurate)" if ok4
+               else f"uniform spacing: the truncation series has a first-order term {fmt_rat(c1, 8)} - the centred operator is only first-order accurate", fi.loc())
         if ok and len(samples) < 1 and cls not in ('Grid1D', 'Grid2D', 'Grid3D'):
             samples.append(dict(rule='K1', cls=cls, term=tname, limit=fmt_rat(lim, 12)))
     except ZeroDivisionError as e:
